@@ -2,6 +2,7 @@ SPECIFICATION Spec
 CONSTANT Bug = "accept_on_provider_error"
 CONSTANT MaxDefects = 2
 CONSTANT MaxValidations = 1
+CONSTANT AllowForever = FALSE
 CONSTANT MaxPending = 1
 INVARIANT OkNeedsAnswer
 CHECK_DEADLOCK FALSE
